@@ -492,6 +492,8 @@ class CallMixin:
                 return c.name == "set"
             if isinstance(v, AList):
                 return c.name == ("tuple" if v.is_tuple else "list")
+            if c.name == "str" and type(v).__name__ in getattr(self.theory, "text_tokens", ()):
+                return True         # a theory's token for a str value
             return isinstance(v, py)
         if isinstance(c, ExcClass):
             return False
